@@ -4,21 +4,23 @@ copy to /verif/seeded/<id>-m<i>/, confirm it independently in the seed worktree 
 apply it to /repo, run ./check <id> (quick; also listed extra checks via SEED_ALSO=C01,C02), undo, record."""
 import glob, json, os, shutil, subprocess, sys
 pid, tests = sys.argv[1], sys.argv[2:]
+V = os.environ.get("VERIF_ROOT", "/verif")
+R = os.environ.get("SEED_REPO", "/repo")
 also = [x for x in os.environ.get("SEED_ALSO", "").split(",") if x]
 wt = f"/tmp/seed/{pid}"
 for d in sorted(glob.glob(f"/tmp/seed/{pid}_out/m*")):
     i = os.path.basename(d)
-    dst = f"/verif/seeded/{pid}-{i}"
+    dst = f"{V}/seeded/{pid}-{i}"
     os.makedirs(dst, exist_ok=True)
     for f in ("patch.diff", "demo.py", "notes.md"):
         if os.path.exists(os.path.join(d, f)):
             shutil.copy2(os.path.join(d, f), dst)
-    subprocess.run([sys.executable, "/verif/tools/confirm_seed.py", dst, wt, pid] + tests)
+    subprocess.run([sys.executable, f"{V}/tools/confirm_seed.py", dst, wt, pid] + tests)
     meta = json.load(open(f"{dst}/meta.json"))
     if not meta.get("confirmed"):
         print(dst, "not confirmed; skipped")
         continue
-    rc = subprocess.run(["git", "-C", "/repo", "apply", f"{dst}/patch.diff"]).returncode
+    rc = subprocess.run(["git", "-C", R, "apply", f"{dst}/patch.diff"]).returncode
     if rc != 0:
         meta["check_result"] = "patch does not apply to /repo"
         json.dump(meta, open(f"{dst}/meta.json", "w"), indent=1)
@@ -26,10 +28,10 @@ for d in sorted(glob.glob(f"/tmp/seed/{pid}_out/m*")):
         continue
     results = {}
     # evidence files must describe clean-tree runs only: keep them aside while a seeded change is applied
-    saved = {c: open(f"/verif/evidence/{c}.json").read() for c in [pid] + also if os.path.exists(f"/verif/evidence/{c}.json")}
+    saved = {c: open(f"{V}/evidence/{c}.json").read() for c in [pid] + also if os.path.exists(f"{V}/evidence/{c}.json")}
     try:
         for c in [pid] + also:
-            p = subprocess.run(["/verif/check", c], capture_output=True, text=True, cwd="/verif")
+            p = subprocess.run([f"{V}/check", c], capture_output=True, text=True, cwd=V)
             lines = [l for l in p.stdout.splitlines() if l.startswith("VIOLATION") or l.startswith(c + " quick")]
             keys = []
             for l in lines:
@@ -42,10 +44,10 @@ for d in sorted(glob.glob(f"/tmp/seed/{pid}_out/m*")):
             results[c] = {"exit": p.returncode, "violation_lines": len([l for l in lines if l.startswith("VIOLATION")]),
                           "keys": keys[:8], "summary": lines[-1][:300] if lines else p.stdout[-300:] + p.stderr[-300:]}
     finally:
-        subprocess.run(["git", "-C", "/repo", "checkout", "--", "."])
+        subprocess.run(["git", "-C", R, "checkout", "--", "."])
         for c, txt in saved.items():
-            open(f"/verif/evidence/{c}.json", "w").write(txt)
-        subprocess.run([sys.executable, "/verif/tools/py2lean.py", "/repo", "/verif/lean/Gen/Kernels.lean"], capture_output=True)
+            open(f"{V}/evidence/{c}.json", "w").write(txt)
+        subprocess.run([sys.executable, f"{V}/tools/py2lean.py", R, f"{V}/lean/Gen/Kernels.lean"], capture_output=True)
     meta["check_runs"] = results
     meta["check_result"] = "caught" if any(r["exit"] == 1 for r in results.values()) else "MISSED"
     meta["check_cmd"] = f"git -C /repo apply seeded/{pid}-{i}/patch.diff && ./check {pid}; git -C /repo checkout -- ."
